@@ -45,6 +45,20 @@ def from_payload(kind: str, p: Any) -> Tuple:
         return ("map", [(from_payload(kk, k), from_payload(vk, v)) for k, v in p.items()])
     if kind == "null":
         return ("null",)
+    if kind == "json":
+        if p is None:
+            return ("null",)
+        if isinstance(p, bool):
+            return ("bool", p)
+        if isinstance(p, int):
+            return ("int", p)
+        if isinstance(p, float):
+            return ("double", p)
+        if isinstance(p, str):
+            return ("string", p)
+        if isinstance(p, list):
+            return ("list", [from_payload("json", x) for x in p])
+        return ("map", [(("string", k), from_payload("json", v)) for k, v in p.items()])
     return (kind, p)
 
 
@@ -73,9 +87,10 @@ def type_name(v: Tuple) -> str:
 
 
 def _eq(a: Tuple, b: Tuple) -> Any:
-    """CEL equality for same-kind values; cross-kind -> ERR (no overload) except null comparisons."""
+    """CEL equality for same-kind values. Across kinds (null against a non-null value included) the properties say nothing ("for values of the
+    same CEL type"), and CEL versions differ (no such overload / false): Unspecified, so such cases are skipped and counted, never asserted."""
     if a[0] != b[0]:
-        return ERR
+        raise Unspecified("equality across kinds")
     t = a[0]
     if t == "null":
         return True
@@ -236,7 +251,7 @@ class Evaluator:
                 if b[0] == "list":
                     res: Any = False
                     for item in b[1]:
-                        e = _eq(a, item) if a[0] == item[0] else ERR
+                        e = _eq(a, item)  # across kinds: Unspecified (x in l iff l.exists(y, y == x), and y == x is unspecified there)
                         if e is True:
                             return ("bool", True)
                         if e is ERR:
